@@ -27,6 +27,8 @@ FieldPool == {
     Field(Pad(<<"f", "f2", "f3">>), "LU;", <<>>),          \* U is not in the set
     Field(Pad(<<"f", "f2", "f3">>), "LA2;", <<>>),         \* A2 is A's second name but no source name: captured on the way back
     Field(Pad(<<"f", "f2", "f3">>), "LA;", <<>>),          \* with the one before: the same row of names, descriptors that coincide once A is written A2
+    Field(Pad(<<"u", "u2", "u3">>), "LUL;", <<>>),         \* an unmapped class whose name ends in L
+    Field(Pad(<<"v", "v2", "v3">>), "[LXLA;", <<>>),       \* an unmapped class whose name goes on, behind an L, like a mapped one
     Field(Pad(<<"h", "f2", "h3">>), "I", <<>>)}            \* same second name and descriptor as the first: collides when n2 comes first
 FieldSets == {S \in SUBSET FieldPool : Cardinality(S) <= 2 /\ \A x, y \in S : KeyOf(x) = KeyOf(y) => x = y}
 ParamPool == {Param(0, Pad(<<"", "p2", "p3">>), <<>>), Param(1, Pad(<<"p", "", "">>), <<"pd">>)}
